@@ -5,6 +5,12 @@ V = os.path.dirname(os.path.dirname(os.path.abspath(__file__)))
 
 CHECKS = {
  # id: (level, technique, level text, level note)
+ "C11": ("exploration", "reference-model monitor: pi-derived Blowfish reference (self-checked on 16 published vectors) over recorded encrypt/decrypt calls",
+         "Every recorded encrypt/decrypt of the real library is compared with an independent Blowfish whose tables are computed from pi; any altered table word, round count, key-schedule or padding step changes essentially every ciphertext, so thousands of (key,message) pairs across key lengths 8..56 and message lengths 0..4096 give high confidence; exploration because keys/messages are unbounded.",
+         "reference implementation + published vectors are trusted"),
+ "C15": ("exploration", "table monitor over completely enumerated finite domains + injectivity invariant + ordering monitor over permutations (sort() and on-disk discovery)",
+         "All race/tribe/gender triples, all file-name tuples and (thorough) all equipment ids x slots x triples and all permutations of all subsets up to 7 repositories are enumerated through the real functions and compared with independent tables; the finite parts are exhaustive, the cross-check with patch-side names and discovery orders is sampled.",
+         "race-code table and naming conventions of the retail client are trusted"),
  "C12": ("exploration", "reference-model monitor (zlib.crc32 / bitwise CRC / hashlib.sha1) over recorded hash calls",
          "Every recorded hash call of the real library is compared with two independent implementations; held on tens of thousands of strings over all ASCII code points and lengths 0..4096 and on files of every length 0..300 plus all SHA-1 padding boundaries up to 4 MiB. Exploration is the right level: the input space is unbounded and the oracle is exact.",
          "Python zlib/hashlib are trusted; ASCII paths only"),
